@@ -30,6 +30,9 @@ var scratch string
 
 func TestMain(m *testing.M) {
 	sess.Init() // restricted IO with load and save present
+	// grol's allocation guard measures against the Go memory limit: without one, a generated `42 : b` with a huge b is
+	// attempted for real (and kills this process)
+	pbt.SafetyNets()
 	dir, err := os.MkdirTemp("", "verif-c14-")
 	if err == nil {
 		scratch = dir
